@@ -10,9 +10,9 @@ From PW Require Import Child.Sem Gen.Skel Child.Runs Child.Proofs.
      has_error True with WorkerTerminatedError and the finally block / _cleanup ran - or the request
      landed on a boundary that is never reached (the child is still inside the target);
    - a target that ends on its own: the outcome is the target's own outcome or
-     WorkerTerminatedError, nothing else - EXCEPT on the boundaries of the handler that records
-     a failure (handler_window, the known finding C03-handler-window: landing there loses the
-     report and the parent sees has_error True, error None). *)
+     WorkerTerminatedError, nothing else - also when the request lands in the handler that records
+     the target's own failure (the run loops catch that in an outer handler since the repair
+     "a terminate request arriving while a failure is being recorded is reported"). *)
 Theorem C03_every_landing_point :
   forall k pers t p, start_point k <= p < BOUND_R -> c03_check (k, pers, t, p) = true.
 Proof. exact c03_every_landing. Qed.
@@ -25,18 +25,20 @@ Theorem C03_inside_running_target :
     /\ observe k true (run k pers TLoop [(S (call_point k), term_action k)]) = OAlive.
 Proof. exact c03_inside_target. Qed.
 
-(* the remote kind has no such window: its handlers are nested, a request landing in the inner one is caught and
-   reported as WorkerTerminatedError by the outer one *)
-Theorem C03_remote_has_no_handler_window :
-  forall t p, p < BOUND_R -> handler_window KRemote t p = false.
-Proof. exact c03_remote_no_window. Qed.
+(* what the repair "a terminate request arriving while a failure is being recorded is reported" is for: the run loops
+   without the outer handler (as they were) lose both outcomes when the request lands in the handler *)
+Definition without_outer_handler (p : stm) : stm :=
+  match p with
+  | Seq [Try (Seq [inner]) _ fin] => Seq [match inner with Try b hs _ => Try b hs fin | x => x end]
+  | x => x
+  end.
 
-(* REFUTED in full: the target raised its own exception and the request lands inside the handler *)
-Theorem C03_refuted_handler_window :
-  exists k p, observe k true (run k false TRaise [(p, AWTE)]) = OErr None.
-Proof. exists KThread, 11. vm_compute. reflexivity. Qed.
+Theorem C03_handler_window_needs_the_repair :
+  exists p, observe KThread true (exec TRaise 300 (without_outer_handler sk_thread_run) (init_cs [(p, AWTE)] None)) = OErr None
+            /\ (observe KThread true (run KThread false TRaise [(p, AWTE)]) = OErr (Some EWTE)
+                \/ observe KThread true (run KThread false TRaise [(p, AWTE)]) = OErr (Some EOwn)).
+Proof. exists 12%nat. split; [vm_compute; reflexivity|left; vm_compute; reflexivity]. Qed.
 
 Print Assumptions C03_every_landing_point.
 Print Assumptions C03_inside_running_target.
-Print Assumptions C03_remote_has_no_handler_window.
-Print Assumptions C03_refuted_handler_window.
+Print Assumptions C03_handler_window_needs_the_repair.
